@@ -60,6 +60,36 @@ pub(super) fn validate_type_conditions(
                 )));
             }
         }
+        TypeId::Object(_) => {
+            // Under an object, the only type conditions that can apply are the object
+            // itself (handled above), an interface it implements or a union it belongs to.
+            let applies = match selected_type {
+                TypeId::Interface(interface_id) => parent_schema_type_id
+                    .as_object_id()
+                    .map(|id| {
+                        query
+                            .schema
+                            .get_object(id)
+                            .implements_interfaces
+                            .contains(&interface_id)
+                    })
+                    .unwrap_or(false),
+                TypeId::Union(union_id) => query
+                    .schema
+                    .get_union(union_id)
+                    .variants
+                    .contains(&parent_schema_type_id),
+                _ => false,
+            };
+
+            if !applies {
+                return Err(QueryValidationError::new(format!(
+                    "The spread {}... on {} is not valid.",
+                    parent_schema_type_id.name(query.schema),
+                    selected_type.name(query.schema),
+                )));
+            }
+        }
         _ => (),
     }
 
